@@ -387,13 +387,14 @@ class BlackbirdProgram:
 
             for k, v in self._var.items():
                 var_type = inv_type_map[np.array(v).dtype.kind]
-                array_string = ""
-                if isinstance(v, Iterable):
+                if isinstance(v, np.ndarray):
+                    array_string = ""
                     for row in v:
-                        array_string += "\n    " + "".join("{}, ".format(i) for i in row)[:-2]
+                        array_string += "\n    " + ", ".join(_format_value(i) for i in row)
                     script.append("{} array {} ={}".format(var_type, k, array_string))
                 else:
-                    script.append("{} array {} =\n{}".format(var_type, k, v))
+                    # a scalar variable
+                    script.append("{} {} = {}".format(var_type, k, _format_value(v)))
 
 
             # line break
